@@ -95,22 +95,16 @@ theorem validatePy_eq_rfc (st : St) (h : st.ok) (b : Bytes) : validatePy st b = 
   simp only [validatePy, validateRfc, validateWith, hc.1, hc.2.1]
   rw [loop_congr pyStep tablePy_eq_rfc 1 st.state 0 h b]
 
-theorem validateNvx_eq_rfc (impl : Nat) (st : St) (h : st.ok) (h1 : st.state ≠ 1) (b : Bytes) :
+/-- every NVX implementation id, from every reachable state (the reject state included): with the loop guards as
+read from the C source (`loops_run_in_reject`) the C control flow is the pure-Python one -/
+theorem validateNvx_eq_rfc (impl : Nat) (st : St) (h : st.ok) (b : Bytes) :
     validateNvx impl st b = validateRfc st b := by
+  have hg := loops_run_in_reject
   unfold validateNvx
   split
-  · simp only [validateNvxWith, h1, ↓reduceIte, validateRfc, validateWith]
+  · simp only [validateNvxWith, hg.2, Bool.false_and, Bool.false_eq_true, ↓reduceIte, validateRfc, validateWith]
     rw [loop_congr cUnrolledStep unrolledC_eq_rfc 1 st.state 0 h b]
-  · simp only [validateNvxWith, h1, ↓reduceIte, validateRfc, validateWith]
-    rw [loop_congr cTableStep tableC_eq_rfc 1 st.state 0 h b]
-
-theorem validateNvxFixed_eq_rfc (impl : Nat) (st : St) (h : st.ok) (b : Bytes) :
-    validateNvxFixed impl st b = validateRfc st b := by
-  unfold validateNvxFixed
-  split
-  · simp only [validateRfc, validateWith]
-    rw [loop_congr cUnrolledStep unrolledC_eq_rfc 1 st.state 0 h b]
-  · simp only [validateRfc, validateWith]
+  · simp only [validateNvxWith, hg.1, Bool.false_and, Bool.false_eq_true, ↓reduceIte, validateRfc, validateWith]
     rw [loop_congr cTableStep tableC_eq_rfc 1 st.state 0 h b]
 
 theorem validateRfc_ok (st : St) (h : st.ok) (b : Bytes) : (validateRfc st b).2.ok := by
@@ -454,71 +448,47 @@ theorem py_conforms (cs : List Bytes) : judge [] 0 cs (feed validatePy .init cs)
   have e : (validatePy St.init []).2 = St.init := by decide
   rwa [e] at this
 
-/-- the judge is not vacuous: it rejects today's NVX answers on the F1 sequence, and accepts the Python ones -/
-example : judge [] 0 [[0xFF], [0x41]] (feed (validateNvx 1) .init [[0xFF], [0x41]]).1 = some (1, .forgetsRejectOnNextCall) := by
+/-- the judge is not vacuous: it rejects the pre-repair NVX answers on the F1 sequence (and accepts the Python ones) -/
+example : judge [] 0 [[0xFF], [0x41]] (feed (validateNvxLegacy 1) .init [[0xFF], [0x41]]).1 = some (1, .forgetsRejectOnNextCall) := by
   decide
 
 
 /-! ## NVX = pure Python -/
 
-/-- no `validate` call is made after one that answered invalid (how `protocol.py` uses the validator) -/
-def noCallAfterReject (v : St → Bytes → Res × St) : St → List Bytes → Bool
-  | _, [] => true
-  | _, [_] => true
-  | st, c :: cs => (v st c).1.valid && noCallAfterReject v (v st c).2 cs
-
-/-- full-strength statement: the NVX validator and the pure-Python validator answer every call sequence alike -/
-def NvxEqPy : Prop := ∀ (impl : Nat) (cs : List Bytes), feed (validateNvx impl) .init cs = feed validatePy .init cs
-
-/-- `NvxEqPy` restricted to call sequences with no call after a rejecting one. The restriction is needed on
-today's code (finding F1, see `not_NvxEqPy`); with the repaired C (`validateNvxFixed`) it is not
-(`nvxFixed_eq_py`). -/
-theorem nvx_eq_py_partial (impl : Nat) (cs : List Bytes) (h : noCallAfterReject validatePy .init cs = true) :
+/-- **NVX = pure Python, full strength**: every implementation id of the NVX validator and the pure-Python validator
+answer every call sequence alike — all four tuple elements of every call, empty chunks and calls after a reject
+included — and are left in the same state. Rests on `tableC_eq_rfc`, `unrolledC_eq_rfc`, `tablePy_eq_rfc`,
+`consts_eq_rfc` and `loops_run_in_reject`, i.e. on the tables, the macro and the loop conditions as read from
+/repo on this run. -/
+theorem nvx_eq_py (impl : Nat) (cs : List Bytes) :
     feed (validateNvx impl) .init cs = feed validatePy .init cs := by
   have h0 : St.init.ok := by show 0 < 9; omega
-  have gen : ∀ (cs : List Bytes) (st : St), st.ok → st.state ≠ 1 → noCallAfterReject validatePy st cs = true →
-      feed (validateNvx impl) st cs = feed validatePy st cs := by
-    intro cs
-    induction cs with
-    | nil => intros; rfl
-    | cons c cs ih =>
-      intro st hok h1 hn
-      have e : validateNvx impl st c = validatePy st c := by
-        rw [validateNvx_eq_rfc impl st hok h1, validatePy_eq_rfc st hok]
-      cases cs with
-      | nil => simp [feed, e]
-      | cons d ds =>
-        simp only [noCallAfterReject, Bool.and_eq_true] at hn
-        have hok' : (validatePy st c).2.ok := by rw [validatePy_eq_rfc st hok]; exact validateRfc_ok _ hok _
-        have h1' : (validatePy st c).2.state ≠ 1 := by
-          have hv := hn.1
-          rw [validatePy_eq_rfc st hok] at hv ⊢
-          rcases validate_cases rfcStep 0 1 st c h1 with ⟨g1, g2⟩ | ⟨k, _, _, _, g3⟩
-          · rw [validateRfc, g2]; exact g1
-          · rw [validateRfc, g3] at hv; simp at hv
-        have := ih (validatePy st c).2 hok' h1' hn.2
-        rw [feed_cons (validateNvx impl) st c, feed_cons validatePy st c, e, this]
-  exact gen cs .init h0 (by decide) h
+  rw [feedPy_eq_rfc _ h0]
+  exact feed_congr _ _ St.ok (validateNvx_eq_rfc impl) validateRfc_ok .init h0 cs
 
-example : noCallAfterReject validatePy .init [[0xE2, 0x82], [], [0xAC, 0xFF]] = true := by decide
+/-- hence the NVX validator too passes the grammar-level conformance judge on every call sequence -/
+theorem nvx_conforms (impl : Nat) (cs : List Bytes) : judge [] 0 cs (feed (validateNvx impl) .init cs).1 = none := by
+  rw [nvx_eq_py]; exact py_conforms cs
 
-/-- F1: after `validate(b"\xff")` the NVX validator answers `validate(b"A")` with `(True, False, 1, 2)`
+example : (feed (validateNvx 1) .init [[0xFF], [0x41], []]).1 =
+    [⟨false, false, 0, 0⟩, ⟨false, false, 0, 0⟩, ⟨true, false, 0, 0⟩] := by decide
+
+/-! ### historical: finding F1 (repaired in /repo c2c187d5)
+
+Before the repair both C loops were guarded by `&& state != 1`; `validateNvxLegacy` is that behaviour. It is NOT the
+model of today's code; it is kept so that the difference stays documented and machine-checked. -/
+
+/-- F1: after `validate(b"\xff")` the pre-repair NVX validator answered `validate(b"A")` with `(True, False, 1, 1)`
 where the pure-Python one answers `(False, False, 0, 0)`. -/
-example : (feed (validateNvx 1) .init [[0xFF], [0x41]]).1 = [⟨false, false, 0, 0⟩, ⟨true, false, 1, 1⟩] ∧
+example : (feed (validateNvxLegacy 1) .init [[0xFF], [0x41]]).1 = [⟨false, false, 0, 0⟩, ⟨true, false, 1, 1⟩] ∧
     (feed validatePy .init [[0xFF], [0x41]]).1 = [⟨false, false, 0, 0⟩, ⟨false, false, 0, 0⟩] := by decide
 
-/-- the full-strength statement is false for today's NVX code -/
-theorem not_NvxEqPy : ¬ NvxEqPy := by
+/-- the pre-repair behaviour does not satisfy the full-strength statement -/
+theorem not_NvxLegacyEqPy :
+    ¬ (∀ (impl : Nat) (cs : List Bytes), feed (validateNvxLegacy impl) .init cs = feed validatePy .init cs) := by
   intro h
   have := h 1 [[0xFF], [0x41]]
   revert this
   decide
-
-/-- with the repair (a rejected NVX validator keeps rejecting) the full-strength statement holds -/
-theorem nvxFixed_eq_py (impl : Nat) (cs : List Bytes) :
-    feed (validateNvxFixed impl) .init cs = feed validatePy .init cs := by
-  have h0 : St.init.ok := by show 0 < 9; omega
-  rw [feedPy_eq_rfc _ h0]
-  exact feed_congr _ _ St.ok (validateNvxFixed_eq_rfc impl) validateRfc_ok .init h0 cs
 
 end Abverif.Utf8
